@@ -1,34 +1,64 @@
-(* Model of vm/vmConvertToX.go convertReflectValueToType on the script values nil, bool, int64,
-   string and []interface{} (nested), towards the Go types bool, the integer types, string,
+(* Model of vm/vmConvertToX.go convertReflectValueToType on the script values nil, bool, int64, float64,
+   string and []interface{} (nested), towards the Go types bool, the integer types, float64 / float32, string,
    interface{} and slices of these - in the order of cases of the Go function: interface target /
    same type, reflect's ConvertibleTo + Convert, slices element by element (an element is an
    interface value: nil gives the zero value, anything else is unwrapped first), the one-byte string
    to byte / rune extension, else an error. *)
-From Coq Require Import List ZArith String Ascii Bool Lia.
+From Coq Require Import List ZArith String Ascii Bool Lia Floats.SpecFloat.
+From Anko Require Import Base.Int64 Base.F64.
 Import ListNotations.
 Open Scope Z_scope.
 
-Inductive sval := SNil | SBool (b : bool) | SInt (z : Z) | SStr (bytes : list Z) | SList (l : list sval).
+Inductive sval := SNil | SBool (b : bool) | SInt (z : Z) | SStr (bytes : list Z) | SList (l : list sval) | SFloat (f : f64).
 
 Inductive ty :=
 | TIface
 | TBool
 | TInt (name : string) (signed : bool) (bits : Z)
 | TString
-| TSlice (t : ty).
+| TSlice (t : ty)
+| TFloat (name : string) (bits : Z).        (* float64 (bits = 64) or float32 (bits = 32) *)
 
 Inductive tval :=
 | VDyn (v : sval)                         (* an interface{} slot holding the script value as it is *)
 | VBool (b : bool)
 | VInt (name : string) (signed : bool) (bits : Z) (z : Z)
 | VStr (bytes : list Z)
-| VSlice (t : ty) (l : list tval).
+| VSlice (t : ty) (l : list tval)
+| VFloat (name : string) (bits : Z) (f : f64).   (* for bits = 32 a float64 that is a binary32 value *)
 
 (* Go's integer conversion: wrap into the target width *)
 Definition wrap (signed : bool) (bits : Z) (z : Z) : Z :=
   let m := 2 ^ bits in
   let r := z mod m in
   if signed && (2 ^ (bits - 1) <=? r) then r - m else r.
+
+(* float32(float64): one rounding to nearest even into binary32 (reflect stores float32(v)) *)
+Definition round32 (f : f64) : f64 :=
+  match f with
+  | S754_finite s m e => binary_normalize 24 128 (if s then Zneg m else Zpos m) e s
+  | _ => f
+  end.
+Definition narrow (bits : Z) (f : f64) : f64 := if bits =? 32 then round32 f else f.
+
+(* the integer part of a float, toward zero; none for NaN and the infinities *)
+Definition trunc (f : f64) : option Z :=
+  match f with
+  | S754_zero _ => Some 0
+  | S754_finite s m e =>
+      let mag := if 0 <=? e then Zpos m * 2 ^ e else Zpos m / 2 ^ (- e) in
+      Some (if s then - mag else mag)
+  | _ => None
+  end.
+
+(* uint64(float64) as the amd64 code of this toolchain computes it: CVTTSD2SQ below 2^63 (negative
+   values wrap, values below -2^63 give the "integer indefinite" pattern 2^63), and for the rest the
+   conversion of f - 2^63 with the top bit set: exact up to 2^64, the pattern 2^63 beyond and for NaN *)
+Definition to_u64 (f : f64) : Z :=
+  match trunc f with
+  | None => 2 ^ 63
+  | Some v => if v <? - 2 ^ 63 then 2 ^ 63 else if v <? 0 then v + 2 ^ 64 else if v <? 2 ^ 64 then v else 2 ^ 63
+  end.
 
 (* string(rune): UTF-8, U+FFFD for surrogates and values outside Unicode *)
 Definition utf8 (z : Z) : list Z :=
@@ -45,6 +75,7 @@ Definition zero (t : ty) : tval :=
   | TInt n s b => VInt n s b 0
   | TString => VStr []
   | TSlice e => VSlice e []
+  | TFloat n w => VFloat n w fzero
   end.
 
 Fixpoint ty_eqb (a b : ty) : bool :=
@@ -52,6 +83,7 @@ Fixpoint ty_eqb (a b : ty) : bool :=
   | TIface, TIface | TBool, TBool | TString, TString => true
   | TInt n s w, TInt n' s' w' => String.eqb n n'
   | TSlice x, TSlice y => ty_eqb x y
+  | TFloat n w, TFloat n' w' => String.eqb n n'
   | _, _ => false
   end.
 
@@ -76,6 +108,7 @@ Fixpoint conv (v : sval) (t : ty) {struct v} : option tval :=
         match t with
         | TInt n s w => Some (VInt n s w (wrap s w z))
         | TString => Some (VStr (utf8 z))
+        | TFloat n w => Some (VFloat n w (narrow w (of_int z)))      (* reflect: float64(int64), then the store *)
         | _ => None
         end
     | SStr bs =>
@@ -104,6 +137,12 @@ Fixpoint conv (v : sval) (t : ty) {struct v} : option tval :=
                   end) l)
         | _ => None
         end
+    | SFloat f =>
+        match t with
+        | TInt n s w => Some (VInt n s w (wrap s w (if s then F64.to_int f else to_u64 f)))   (* reflect: int64(f) / uint64(f), then the width *)
+        | TFloat n w => Some (VFloat n w (narrow w f))
+        | _ => None
+        end
     end
   end.
 
@@ -114,4 +153,5 @@ Definition type_of (v : tval) : option ty :=
   | VInt n s w _ => Some (TInt n s w)
   | VStr _ => Some TString
   | VSlice e _ => Some (TSlice e)
+  | VFloat n w _ => Some (TFloat n w)
   end.
